@@ -481,6 +481,53 @@ func c19UfsRenameDir(other string, dotu bool, D int) Scenario {
 	}}
 }
 
+// (k) a fid shared by several walks at once (clones and walks by name) after the host has
+// replaced what it designates by something of another kind (a directory by a file, a
+// file by a directory, a file by a symbolic link)
+func c19UfsReplacedKind(how string, dotu bool, D int) Scenario {
+	var root, base string
+	name := fmt.Sprintf("ufs walks sharing a fid whose object the host replaced (%s) dotu=%v", how, dotu)
+	body := func() {
+		vs.EnableHB()
+		os.RemoveAll(root)
+		makeStdTree(root)
+		h := newUfsH(root, 8216, dotu)
+		c := h.Connect()
+		ver := "9P2000"
+		un := ""
+		if dotu {
+			ver = "9P2000.u"
+		} else {
+			un = go9p.OsUsers.Uid2User(os.Geteuid()).Name()
+		}
+		c.Version(8216, ver)
+		c.Rpc(tattach(1, 0, wire.NOFID, un, uint32(os.Geteuid()), dotu))
+		switch how {
+		case "directory by file":
+			c.Rpc(twalk(2, 0, 1, "d"))
+			os.RemoveAll(filepath.Join(root, "d"))
+			os.WriteFile(filepath.Join(root, "d"), []byte("now a file"), 0o644)
+		case "file by directory":
+			c.Rpc(twalk(2, 0, 1, "f"))
+			os.Remove(filepath.Join(root, "f"))
+			os.MkdirAll(filepath.Join(root, "f", "h"), 0o755)
+		case "file by link":
+			c.Rpc(twalk(2, 0, 1, "f"))
+			os.Remove(filepath.Join(root, "f"))
+			os.Symlink("g", filepath.Join(root, "f"))
+		}
+		vs.Window(true)
+		c.Send(dotu, twalk(10, 1, 20), twalk(11, 1, 21), twalk(12, 1, 22, "h"), &wire.Msg{Type: wire.Tstat, Tag: 13, Fid: 1})
+		vs.Idle()
+		vs.Window(false)
+	}
+	return Scenario{Name: name, Run: func(rc *RunCtx) *Result {
+		base, root = scratchDir("c19")
+		defer os.RemoveAll(base)
+		return runVs(rc, &VsSpec{Name: name, Body: body, Check: c19Check, P: D, Delay: true})
+	}}
+}
+
 // (j) files whose host modification time is outside what 32 bits of seconds carry
 // (before 1970, after 2106): stats and directory reads of them on different fids at once
 func c19UfsOddTimes(dotu bool, D int) Scenario {
@@ -539,6 +586,7 @@ func c19Scenarios(tier string) []Scenario {
 	out = append(out, c19UfsSymlinkedRoot(false, D), c19UfsSymlinkedRoot(true, D))
 	out = append(out, c19UfsFreshUsers(D))
 	out = append(out, c19UfsOddTimes(false, D), c19UfsOddTimes(true, D))
+	out = append(out, c19UfsReplacedKind("directory by file", false, D), c19UfsReplacedKind("file by directory", true, D), c19UfsReplacedKind("file by link", true, D))
 	out = append(out, c19UfsRenameDir("create", false, D+1), c19UfsRenameDir("walk", true, D+1), c19UfsRenameDir("stat", true, D+1))
 	out = append(out, c19UfsSharedDotDot(false, D), c19UfsSharedDotDot(true, D))
 	out = append(out, c19UfsSpelledRoot("/", true, D), c19UfsSpelledRoot("//./", false, D))
